@@ -1,22 +1,22 @@
 CONSTANTS
   N = 3
-  L = 2
+  L = 1
   Cap = 2
   HasHead = TRUE
   Manual = FALSE
   HasPay = FALSE
-  HasPlans = TRUE
-  HasSerial = TRUE
+  HasPlans = FALSE
+  HasSerial = FALSE
   HasHist = TRUE
   HasLog = FALSE
   Verbose = FALSE
-  InjCnt <- NoInj
+  InjCnt <- Inj2
   DefMask <- AllDef
   MaxActs = 1
   WithMonitors = TRUE
-  EnvOps <- SmokeOps
-  EnvActs <- SmokeActs
-  EnvPoints <- AllPoints
+  EnvOps <- GuardOps
+  EnvActs <- GuardActs
+  EnvPoints <- GuardPoints
 INIT Init
 NEXT Next
 VIEW StView
